@@ -1,22 +1,5 @@
-/- Driver for C42: the Core model's line protocol (see MvModel/CoreDrv.lean for the requests), with the
-   `vacuum` and `doctor` requests answered by the variant of `Memvid::vacuum` that /repo contains right now
-   (`Mv.Core.codeVacuum`, generated by tools/gen/C42.py; see MvModel/Vacuum.lean). -/
+/- Driver for C42: the Core model's line protocol (see MvModel/CoreDrv.lean for the requests).  Since /repo
+   contains the repaired `Memvid::vacuum` (0e33b6e) the Core model's `vacuum` / `doctor` are the functions the
+   C42 theorems speak about (MvProps/C42.lean, section 8). -/
 import MvModel.CoreDrv
-import MvModel.Vacuum
-namespace Mv.Core
-
-def drvStepV (m : Mem) (ws : List String) : Mem × String :=
-  match ws with
-  | "vacuum" :: rest =>
-    let kv := kvs rest
-    let r := stepV codeVacuum m (.vacuum (getN kv "ftc") (getN kv "ftr"))
-    (r.1.setWalSize (getN kv "ws" r.1.walSize), showOut r.2)
-  | "doctor" :: rest =>
-    let kv := kvs rest
-    let r := stepV codeVacuum m (.doctor (getB kv "vac") (getB kv "rt") (getB kv "rl") (getB kv "rv") (getN kv "ftd") (getN kv "fta") (getN kv "ftb") (getN kv "fto"))
-    (r.1.setWalSize (getN kv "ws" r.1.walSize), showOut r.2)
-  | _ => drvStep m ws
-
-end Mv.Core
-
-def main : IO Unit := Mv.runDriver Mv.Core.Mem.create Mv.Core.drvStepV
+def main : IO Unit := Mv.Core.coreMain
